@@ -151,6 +151,9 @@ impl Hooks {
             let rw = crate::inject::rewriter(v.clone());
             if v.victim == "s" { h.server_tap.rx_rewrite = Some(rw); } else { h.client_tap.rx_rewrite = Some(rw); }
         }
+        if sc.spoof_probe && sc.violation.is_none() {
+            h.server_tap.rx_rewrite = Some(crate::inject::probe_rewriter());
+        }
         if sc.dup_cid_frames && sc.violation.is_none() {
             h.server_tap.rx_rewrite = Some(crate::inject::duplicator());
             h.client_tap.rx_rewrite = Some(crate::inject::duplicator());
